@@ -281,7 +281,9 @@ def Entry.cols (e : Entry) : Cols :=
     filename := none }
 
 /-- `session.query(func.max(QueuedURL.id)).scalar() or 0` -/
-def maxId (rows : List Row) : Nat := rows.foldl (fun m r => max m r.id) 0
+def maxId : List Row → Nat
+  | [] => 0
+  | r :: rest => max r.id (maxId rest)
 
 /-- one row of the `INSERT OR IGNORE INTO queued_urls` executemany -/
 def insertRow (ss : List Str) (rows : List Row) (e : Entry) : List Row :=
